@@ -91,27 +91,25 @@ def run(ctx):
     if drift:
         ctx.notes.append("DRIFT: %d message(s) round-trip to an equal value whose re-encoding differs, e.g. %s" % (len(drift), _key(drift[0])))
 
-    # 3. binding self-test (skipped when real violations were found)
+    # 3. binding self-test (skipped when real violations were found): four corruptions in one trace prefix, one TLC
+    #    run; TraceWF must reject exactly those four events, each for the right clause
     if not ctx.violations:
-        base = [e for e in good if 3 <= len(e["toks"]) <= 30][:40]
-        i = next(k for k, e in enumerate(base) if k > 5 and any(t[0] in (4, 5) and t[2] == 0 and t[1] > 0 for t in e["toks"]))
-
-        def mutated(f):
-            rows = [json.loads(json.dumps(e)) for e in base]
-            f(rows[i])
-            return rows
+        base = [json.loads(json.dumps(e)) for e in good if 3 <= len(e["toks"]) <= 30][:40]
+        idx = [k for k, e in enumerate(base) if k > 5 and any(t[0] in (4, 5) and t[2] == 0 and t[1] > 0 for t in e["toks"])][:4]
 
         def bump(e):
             t = next(t for t in e["toks"] if t[0] in (4, 5) and t[2] == 0 and t[1] > 0)
             t[1] += 1
 
-        for name, f, want in (("flip the round-trip flag", lambda e: e.update(rt=False), "rt"),
-                              ("declare one more item in a container header", bump, "wf"),
-                              ("drop the last token of a message", lambda e: e["toks"].pop(), "wf"),
-                              ("append a second item after the message", lambda e: e["toks"].append([0, 1, 0]), "wf")):
-            fs = validate(ctx, mutated(f), "selftest%d" % len(ctx.selftests), count=False)
-            ctx.selftest("%s in event %d" % (name, i + 1), len(fs) == 1 and fs[0][0] == i and fs[0][2] == want,
-                         "rejections: %s" % [(a, m) for a, _, m, _ in fs])
+        tests = (("flip the round-trip flag", lambda e: e.update(rt=False), "rt"),
+                 ("declare one more item in a container header", bump, "wf"),
+                 ("drop the last token of a message", lambda e: e["toks"].pop(), "wf"),
+                 ("append a second item after the message", lambda e: e["toks"].append([0, 1, 0]), "wf"))
+        for i, (name, f, want) in zip(idx, tests):
+            f(base[i])
+        fs = {a: m for a, _, m, _ in validate(ctx, base, "selftest", count=False)}
+        for i, (name, f, want) in zip(idx, tests):
+            ctx.selftest("%s in event %d" % (name, i + 1), fs.get(i) == want and len(fs) == 4, "rejections: %s" % sorted(fs.items()))
 
     return ctx.finish(
         rule="MC: pushdown machine == recursive definition of one well-formed item on all token strings up to the bound; "
